@@ -131,8 +131,11 @@ def run(ctx, only_saveload=False, pid="C14"):
         start.c.clearcache()
         npaths = [0]
 
+        # full depth on the first three worlds, one action less on the others (bounds the thorough tier to ~30 min)
+        maxlen = depth if (quick or only_saveload or name in ("fcc", "honeycomb", "polarrect")) else depth - 1
+
         def dfs(node, obj, hist):
-            kids = out.get(node, [])
+            kids = out.get(node, []) if len(hist) < maxlen else []
             if not kids:
                 npaths[0] += 1
             for dst, lab in kids:
